@@ -36,7 +36,7 @@ NOT_CARRIED = ["signal / alarm delivery: a timeout is 'the body may raise Timeou
                "without the fault' reading needs the determinism lemma of C04"]
 
 
-def bounded(check):
+def _bounded0(check):
     """bounded stand-in / native witness search: the real dr.run on every small dependency graph against a reference evaluation"""
     import json, os, subprocess
     here = os.path.dirname(os.path.dirname(os.path.abspath(__file__)))
@@ -82,3 +82,8 @@ def bounded(check):
         out2["replay"] = path2
     outs.append(out2)
     return outs
+
+
+def bounded(check):
+    from props._xcheck import xcheck
+    return list(_bounded0(check)) + [xcheck(check, ["dr"], "faults")]
